@@ -224,8 +224,12 @@ def run_seed(seed):
     """one unit of work = (base OCP seed // 3, method seed % 3); the matrix for it is enumerated completely"""
     base_seed, mi = seed // 3, seed % 3
     r = random.Random(base_seed)
+    import os
+
     probe_seed = r.randrange(1 << 30)
     cfg = dict(CFG)
+    if os.environ.get("RSIM_TIER") == "thorough":
+        cfg.update({"Nmax": 4, "nx_max": 4, "np_max": 3, "nv_max": 2, "degmax": 3})
     ops, sp = G.gen_base(r, cfg)
     ops = [op for op in ops if op["op"] != "callback"]
     result = {"prop": "C20", "seed": seed, "probe_seed": probe_seed, "verdict": "ok", "steps": [], "nsteps": 0, "config": {"base_ops": len(ops)}}
